@@ -125,6 +125,8 @@ type loopInfo struct {
 
 // Exec verifies one function.
 type Exec struct {
+	callExcept []string // the same for the call being havocked for
+	loopExcept []string // struct types untouched by the "write everything" calls of the loop being cut
 	keepTypes []string // preserves_types of the callee being havocked for
 	eng      *Engine
 	fn       *ssa.Function
